@@ -11,8 +11,8 @@ use crate::runner::*;
 const REAL: &[&str] = &["Simulator::step_in", "read_mem/write_mem", "DeviceHandler dispatch + poll", "BufferedKeyboard", "BufferedDisplay", "TimerDevice (Arc<Mutex> adapter)", "FrameStack", "AccessObserver", "parser + assembler (program and handler sources)", "built-in OS image"];
 const STUB: &[&str] = &["RefLc3 reference model", "ClockDev host actor", "ScriptDev interrupt/MMIO sources", "Contended<D> wrapper", "getrandom entropy source"];
 const ASSUME: &[&str] = &[
-    "RefLc3 is written from the ISA and the crate's rustdoc; its documented don't-care points (DESIGN.md §4.4 D1-D12) adopt the implementation's value",
-    "non-strict mode only (strict mode is C14's paired runs)",
+    "RefLc3 is written from the ISA and the crate's rustdoc; its documented don't-care points (DESIGN.md §4.4 D1-D13) adopt the implementation's value",
+    "the model covers non-strict mode only (strict mode: C14 paired runs, C09 strict-twin arm)",
 ];
 
 fn exec_ls(scn: &MScn, oracles: &[Oracle]) -> Outcome {
